@@ -644,6 +644,7 @@ func (d *countingDB) ProfileByLinkedIP(ctx context.Context, ip netip.Addr) (*agd
 }
 
 type env struct {
+	profs []*agd.Profile // the profiles in the database, by index
 	db    *countingDB
 	geo   *stack.Geo
 	c     *config
@@ -672,6 +673,15 @@ func asns(l []uint32) []geoip.ASN {
 		out = append(out, geoip.ASN(a))
 	}
 	return out
+}
+
+// builtFrom returns a fresh access.ProfileConfig (fresh slices) for p.
+func builtFrom(p *profCfg) *access.ProfileConfig {
+	return &access.ProfileConfig{
+		AllowedNets: append([]netip.Prefix{}, p.AllowedNets...), BlockedNets: append([]netip.Prefix{}, p.BlockedNets...),
+		AllowedASN: asns(p.AllowedASN), BlockedASN: asns(p.BlockedASN),
+		BlocklistDomainRules: specTexts(p.Rules),
+	}
 }
 
 func clientFilterConf() *filter.ConfigClient {
@@ -715,11 +725,7 @@ func buildEnv(c *config) (*env, error) {
 		p := &c.Profiles[pi]
 		var acc access.Profile = access.EmptyProfile{}
 		if !p.Empty {
-			acc = access.NewDefaultProfile(&access.ProfileConfig{
-				AllowedNets: p.AllowedNets, BlockedNets: p.BlockedNets,
-				AllowedASN: asns(p.AllowedASN), BlockedASN: asns(p.BlockedASN),
-				BlocklistDomainRules: specTexts(p.Rules),
-			})
+			acc = access.NewDefaultProfile(builtFrom(p))
 		}
 		devs := []*agd.Device{}
 		for _, d := range p.Devices {
@@ -730,9 +736,11 @@ func buildEnv(c *config) (*env, error) {
 			}
 			devs = append(devs, ad)
 		}
-		db.Add(&agd.Profile{ID: agd.ProfileID(p.ID), FilterConfig: clientFilterConf(), Access: acc,
+		ap := &agd.Profile{ID: agd.ProfileID(p.ID), FilterConfig: clientFilterConf(), Access: acc,
 			BlockingMode: &dnsmsg.BlockingModeNullIP{}, Ratelimiter: agd.GlobalRatelimiter{},
-			FilteringEnabled: true, QueryLogEnabled: true, IPLogEnabled: true}, devs...)
+			FilteringEnabled: true, QueryLogEnabled: true, IPLogEnabled: true}
+		e.profs = append(e.profs, ap)
+		db.Add(ap, devs...)
 	}
 	geo := stack.NewGeo()
 	for _, g := range c.Geo {
@@ -1232,11 +1240,17 @@ func TestCheck(t *testing.T) {
 		r.Bucket("cache_"+c.Cache, 1)
 		msgID := uint16(1000 + ci)
 
+		compareConfigs(r, e, "before-serving")
+		attributed := []*probe{}
 		for pi := 0; pi < nProbe; pi++ {
 			p := e.genProbe(rng, pi)
 			checkProbe(r, e, p, &msgID, sampled, &attrMismatch)
+			if p.Prof >= 0 {
+				attributed = append(attributed, p)
+			}
 		}
 		malformedPhase(r, e, rng, &msgID)
+		settingsRoundTrip(r, e, attributed, &msgID)
 	}
 	if attrMismatch > 0 {
 		r.Inconclusive(fmt.Sprintf("%d requests were attributed differently from what the harness intended (see bucket attribution_mismatch): the model judged them with the wrong profile", attrMismatch))
@@ -1262,6 +1276,15 @@ func TestCheck(t *testing.T) {
 	r.Require("cache_hits_on_passed", 100)
 	r.Require("ecs_option_probes", 800)
 	r.Require("globally_blocked_profiledb_observed", 1500)
+	r.Require("config_compared_before-serving", 400)
+	r.Require("config_compared_with_rules_after-serving", 200)
+	r.Require("profiles_rebuilt", 400)
+	r.Require("rebuilt_blocked", 1500)
+	r.Require("rebuilt_passed", 1500)
+	for _, cause := range []string{"profile-net", "profile-asn", "profile-name"} {
+		r.Require("rebuilt_cause_"+cause, 100)
+	}
+	r.Require("rebuilt_allow-overrides-block", 150)
 	for _, cause := range []string{"global-net", "global-name", "profile-net", "profile-asn", "profile-name"} {
 		r.Require("malformed_"+cause+"_malformed-ecs", 150)
 	}
@@ -1449,6 +1472,110 @@ func checkProbe(r *vkit.Run, e *env, p *probe, msgID *uint16, sampled map[string
 		r.Bucket("attribution_mismatch", 1)
 		if *attrMismatch == 1 {
 			r.Extra("first_attribution_mismatch", w)
+		}
+	}
+}
+
+// compareConfigs: Profile.Config() is what is stored (profile file cache) and
+// what every consumer of the settings reads; it must equal, field by field and
+// in order, the configuration the profile was built from.
+func compareConfigs(r *vkit.Run, e *env, when string) (ok bool) {
+	ok = true
+	for pi := range e.c.Profiles {
+		pc := &e.c.Profiles[pi]
+		if pc.Empty {
+			continue
+		}
+		want, got := builtFrom(pc), e.profs[pi].Access.Config()
+		r.Bucket("config_compared_"+when, 1)
+		diff := func(field string, same bool) {
+			if same {
+				return
+			}
+			ok = false
+			r.Violation("access-config:changed-"+when+":"+field,
+				"Config() of a profile's access settings differs from the configuration the profile was built from ("+when+" any request)",
+				map[string]any{"config": e.c, "profile": pc.ID, "field": field, "built_from": want, "config_returns": got})
+		}
+		if got == nil {
+			diff("nil", false)
+			continue
+		}
+		diff("allowed_nets", slicesEqual(want.AllowedNets, got.AllowedNets))
+		diff("blocked_nets", slicesEqual(want.BlockedNets, got.BlockedNets))
+		diff("allowed_asn", slicesEqual(want.AllowedASN, got.AllowedASN))
+		diff("blocked_asn", slicesEqual(want.BlockedASN, got.BlockedASN))
+		diff("blocklist_domain_rules", slicesEqual(want.BlocklistDomainRules, got.BlocklistDomainRules))
+		if len(want.BlocklistDomainRules) > 0 {
+			r.Bucket("config_compared_with_rules_"+when, 1)
+		}
+	}
+	return ok
+}
+
+func slicesEqual[T comparable](a, b []T) bool {
+	if len(a) != len(b) {
+		return false
+	}
+	for i := range a {
+		if a[i] != b[i] {
+			return false
+		}
+	}
+	return true
+}
+
+// settingsRoundTrip: after the profiles have served requests (every lazily
+// built part exists), their Config() must still be what they were built from,
+// and a profile rebuilt from that Config() (what a restart from the profile
+// cache does) must judge the profile's requests exactly like the model.
+func settingsRoundTrip(r *vkit.Run, e *env, probes []*probe, msgID *uint16) {
+	c := e.c
+	compareConfigs(r, e, "after-serving")
+	for pi := range c.Profiles {
+		if c.Profiles[pi].Empty {
+			continue
+		}
+		cfg := e.profs[pi].Access.Config()
+		if cfg == nil {
+			continue // reported by compareConfigs
+		}
+		// sequential: no request is in flight while the settings are swapped
+		e.profs[pi].Access = access.NewDefaultProfile(cfg)
+		r.Bucket("profiles_rebuilt", 1)
+	}
+	for _, p := range probes {
+		*msgID++
+		m, err := p.msg(*msgID)
+		if err != nil {
+			continue
+		}
+		v := c.judge(p.Remote.Addr(), p.Name, p.QType, p.Prof)
+		_, o := e.serve(p, m)
+		w := witness{Config: c, Probe: p, Model: v, Observed: o, Note: "second pass: the profile's access settings were rebuilt from Profile.Config() after the first pass"}
+		r.Eval("rebuilt|"+p.Method+"|"+v.bits(), true)
+		if o.Panic != "" {
+			r.Violation("panic:serve", "the handler panicked", w)
+			continue
+		}
+		if v.Blocked {
+			cause := v.cause()
+			r.Bucket("rebuilt_blocked", 1)
+			r.Bucket("rebuilt_cause_"+cause, 1)
+			if o.Responses > 0 || o.Err != "" {
+				r.Violation("blocked:response-written:"+cause+":rebuilt-profile", "a request that the access settings reject is answered once the profile's settings went through Config() and NewDefaultProfile", w)
+			}
+			if o.SideEffects > 0 || o.UpstreamDelta != 0 {
+				r.Violation("blocked:side-effects:"+cause+":rebuilt-profile", "a request that the access settings reject reaches a later stage once the profile's settings went through Config() and NewDefaultProfile", w)
+			}
+			continue
+		}
+		r.Bucket("rebuilt_passed", 1)
+		if (v.PBlkNet || v.PBlkASN) && (v.PAlwNet || v.PAlwASN) {
+			r.Bucket("rebuilt_allow-overrides-block", 1)
+		}
+		if o.Responses != 1 || o.Err != "" {
+			r.Violation("allowed:dropped:rebuilt-profile", "a request that no access rule rejects is not answered once the profile's settings went through Config() and NewDefaultProfile", w)
 		}
 	}
 }
